@@ -64,6 +64,8 @@ inline void add_exec_counters(JudgeOut &out, const RunResult &r)
 	out.k.add("step.allocations", r.allocs_u1 + r.allocs_u2);
 	out.k.add("step.stream_reads", r.reads);
 	out.k.add("step.callback_invocations", r.cb_invocations);
+	if (r.files_recycled)
+		out.k.add("fault.file_address_reuse.fired", r.files_recycled);
 	out.hash = fnv64(std::to_string(r.hash), out.hash ? out.hash : 1469598103934665603ULL);
 	for (auto &o : r.ops)
 		if (!o.dump.empty())
